@@ -14,17 +14,18 @@ cd /verif
 OUT=$(timeout 1500 ./check $PID --root $WT 2>&1)
 CODE=$?
 VIOL=$(echo "$OUT" | grep -c '^VIOLATION')
+NOINPUT=$(echo "$OUT" | grep '^VIOLATION' | grep -c 'no-failing-input-found$')
 FIRST=$(echo "$OUT" | grep '^VIOLATION' | head -2 | sed 's/.*obligation=//' | cut -c1-160 | tr '\n' '|')
 git -C /repo worktree remove --force $WT
 mkdir -p /verif/seeded/$SID
-cp $SRC/patch.diff $SRC/demo.py /verif/seeded/$SID/
-[ -f $SRC/notes.md ] && cp $SRC/notes.md /verif/seeded/$SID/notes.md
+[ "$(realpath $SRC)" != "/verif/seeded/$SID" ] && cp $SRC/patch.diff $SRC/demo.py /verif/seeded/$SID/
+[ "$(realpath $SRC)" != "/verif/seeded/$SID" ] && [ -f $SRC/notes.md ] && cp $SRC/notes.md /verif/seeded/$SID/notes.md
 python3 - <<PY
 import json
 json.dump({"id": "$SID", "breaks_property": "$PID", "suite_with_change": """$SUITE""".strip(), "demo_exit_unchanged": $DEMO_CLEAN, "demo_exit_with_change": $DEMO_MUT,
            "confirmed": ("118 passed" in """$SUITE""") and $DEMO_CLEAN == 0 and $DEMO_MUT == 1,
            "what_i_ran": "scratch worktree of /repo HEAD: demo on the unchanged tree, git apply patch.diff, pytest (118 tests), demo with the change, ./check $PID --root <worktree>; worktree removed",
            "needs_to_manifest": "see notes.md",
-           "check_exit": $CODE, "violations_reported": $VIOL, "first_obligations": """$FIRST"""}, open("/verif/seeded/$SID/meta.json", "w"), indent=1)
+           "check_exit": $CODE, "violations_reported": $VIOL, "violations_without_concrete_input": $NOINPUT, "first_obligations": """$FIRST"""}, open("/verif/seeded/$SID/meta.json", "w"), indent=1)
 PY
 echo "$SID prop=$PID suite=[$SUITE] demo clean=$DEMO_CLEAN mutated=$DEMO_MUT check_exit=$CODE violations=$VIOL :: $FIRST"
